@@ -5,7 +5,7 @@ composing C13 (routing), C15 (placement, quotas), C16 (tenant keys), C17 (fan-ou
 (`KInv`, `OpIn`, `SameSet`, `Inv`, `Rel`, `StepOK` …) is defined in `Lemmas.lean` / `Refine.lean`.
 Notes: notes/ClusterCompose.md.
 -/
-import SemaModel.ClusterCompose.Readout
+import SemaModel.ClusterCompose.Isolation
 namespace Sema.ClusterCompose
 open Sema List
 
@@ -162,5 +162,48 @@ example : InsertOK exCfg ⟨10, []⟩ ⟨uA, cX, [], 10⟩ [(3, 30), (1, 10), (2
 example : (run exHash exCfg exServers Cluster.empty
     [⟨b 1, uA, .create cX 2 1⟩, ⟨b 2, uA, .create (b 7) 2 1⟩, ⟨b 3, uA, .insert cX [(1, 1), (2, 2), (3, 3)] exMk⟩, ⟨b 2, uA, .create cX 2 1⟩]).2 =
     [.ok, .quota, .quota, .exists_] := by decide
+
+/-! ## 3. tenants are isolated on the multi-node state
+
+`projB b c`: everything of the cluster that belongs to tenant `b` — on every server the records
+under the scan prefix `b/` and the shard directories of `b`'s collections.  `RecWF`: records are
+stored under their own key with a delimiter-free user id (an invariant of every history, part of
+`Inv`).  C16's `C16_key_inj` / `C16_prefix` are what separates the tenants; here they are applied to
+every node database of the cluster at once. -/
+
+/-- **Cluster_tenant_isolation.**  For every history of API calls of arbitrarily many users (ids
+without '/'), entered through any nodes, and every tenant `b`:
+(1) the responses `b` receives are exactly those of running `b`'s own requests alone — on `b`'s
+    part of the cluster, and (3) also on the whole initial cluster (the others' requests removed);
+(2) `b`'s part of the final cluster is the result of `b`'s own requests on `b`'s part;
+(4) on the reference map a request of another user leaves every collection of `b` as it was.
+No `Inv`, no `HistOK` needed: isolation does not depend on unique point ids or `fits`. -/
+theorem Cluster_tenant_isolation (h : Bytes → Nat) (cfg : Cfg) (servers : Name → List Name) (S : List Name)
+    (K : Bytes → Prop) (hS : ∀ n, SameSet (servers n) S) (hnt : ∀ key, K key → C13.NoTies h key S)
+    (c : Cluster) (hK : KInv K c) (hw : RecWF c) (H : List Req) (hin : HistIn K H)
+    (hu : ∀ q ∈ H, C16.slash ∉ q.user) (b : Bytes) (hb : C16.slash ∉ b) :
+    respTo b H (run h cfg servers c H).2 = (run h cfg servers (projB b c) (H.filter fun q => decide (q.user = b))).2 ∧
+    projB b (run h cfg servers c H).1 = (run h cfg servers (projB b c) (H.filter fun q => decide (q.user = b))).1 ∧
+    respTo b H (run h cfg servers c H).2 = (run h cfg servers c (H.filter fun q => decide (q.user = b))).2 ∧
+    (∀ (m : Ref) (a : Bytes) (op : Op) (col : Bytes), a ≠ b → refGet (refStep m a op).1 (b, col) = refGet m (b, col)) := by
+  have hinb : HistIn K (H.filter fun q => decide (q.user = b)) := fun q hq => hin q (mem_filter.mp hq).1
+  have hub : ∀ q ∈ H.filter (fun q => decide (q.user = b)), C16.slash ∉ q.user := fun q hq => hu q (mem_filter.mp hq).1
+  rw [run_canonical h cfg servers S hS hnt H c hK hin,
+    run_canonical h cfg servers S hS hnt _ (projB b c) (kinv_proj hK b) hinb,
+    run_canonical h cfg servers S hS hnt _ c hK hinb]
+  obtain ⟨h1, h2⟩ := iso_run h cfg S b hb H c hw hu
+  obtain ⟨h3, _⟩ := iso_run h cfg S b hb _ c hw hub
+  rw [filter_filter, respTo_all b _ _ (fun q hq => by simpa using (mem_filter.mp hq).2) (run_length h cfg _ _ _)] at h3
+  simp only [Bool.and_self] at h3
+  exact ⟨h1, h2, h1.trans h3.symm, fun m a op col hab => ref_other m hab op col⟩
+
+-- non-vacuity: in the history above B's request is the third one; B's answer and B's part do not depend on A's six requests
+example : respTo uB (exHist (b 1) (b 2) (b 3)) (run exHash exCfg exServers Cluster.empty (exHist (b 1) (b 2) (b 3))).2 = [.ok] ∧
+    (run exHash exCfg exServers Cluster.empty ((exHist (b 1) (b 2) (b 3)).filter fun q => decide (q.user = uB))).2 = [.ok] := by decide
+example : C16.slash ∉ uA ∧ C16.slash ∉ uB ∧ RecWF Cluster.empty :=
+  ⟨by decide, by decide, fun _ _ _ h => by simp [Cluster.empty, dbGet] at h⟩
+-- A's answers with B's request removed are A's answers in the full history
+example : respTo uA (exHist (b 1) (b 2) (b 3)) (run exHash exCfg exServers Cluster.empty (exHist (b 1) (b 2) (b 3))).2 =
+    (run exHash exCfg exServers Cluster.empty ((exHist (b 1) (b 2) (b 3)).filter fun q => decide (q.user = uA))).2 := by decide
 
 end Sema.ClusterCompose
